@@ -124,6 +124,7 @@ PROPS = {
     "C04": {
         "mc": L0_QUICK + L0_THOROUGH,
         "drivers": [drv("matrix", "debug", shards={"quick": 8, "thorough": 14}, env={"HARNESS_SAMPLE": "2"}, tiers=Q), drv("matrix", "debug", tiers=T), drv("history", "debug"), drv("history", "release", tiers=T),
+                    drv("origins", "debug", shards={"quick": 10, "thorough": 14}),
                     drv("arb", "debug", features=["std", "rand", "serde", "quickcheck", "arbitrary"], shards={"quick": 4, "thorough": 8})],
         "owns_reasons": ("noncanon",),
     },
